@@ -147,25 +147,36 @@ pub fn run_trace(trace: &Trace, cfg: &Config) -> Outcome {
             let _ = tx.send(o);
         })
         .expect("spawn");
-    match rx.recv_timeout(std::time::Duration::from_secs(watchdog_secs())) {
-        Ok(o) => {
-            let _ = h.join();
-            o
-        }
-        Err(std::sync::mpsc::RecvTimeoutError::Timeout) => {
-            // the thread cannot be stopped; the caller reports and lets the process end
-            let p = PROGRESS.load(Ordering::Relaxed);
-            let in_lib = IN_LIBRARY.load(Ordering::Relaxed) != 0;
-            let op = ALL_OPS.get((p & 0xff) as usize).map(|o| o.name()).unwrap_or("?");
-            let mut o = Outcome::default();
-            o.hang = Some(((p >> 8) as usize, op, in_lib));
-            o
-        }
-        Err(_) => {
-            let _ = h.join();
-            let mut o = Outcome::default();
-            o.harness = Some("simulator thread panicked outside a guarded call".into());
-            o
+    // the watchdog is per step: it fires when the progress marker has not moved for the limit
+    let limit = std::time::Duration::from_secs(watchdog_secs());
+    let mut last = PROGRESS.load(Ordering::Relaxed);
+    let mut since = std::time::Instant::now();
+    loop {
+        match rx.recv_timeout(std::time::Duration::from_millis(250)) {
+            Ok(o) => {
+                let _ = h.join();
+                return o;
+            }
+            Err(std::sync::mpsc::RecvTimeoutError::Timeout) => {
+                let p = PROGRESS.load(Ordering::Relaxed);
+                if p != last {
+                    last = p;
+                    since = std::time::Instant::now();
+                } else if since.elapsed() >= limit {
+                    // the thread cannot be stopped; the caller reports and lets the process end
+                    let in_lib = IN_LIBRARY.load(Ordering::Relaxed) != 0;
+                    let op = ALL_OPS.get((p & 0xff) as usize).map(|o| o.name()).unwrap_or("?");
+                    let mut o = Outcome::default();
+                    o.hang = Some(((p >> 8) as usize, op, in_lib));
+                    return o;
+                }
+            }
+            Err(_) => {
+                let _ = h.join();
+                let mut o = Outcome::default();
+                o.harness = Some("simulator thread panicked outside a guarded call".into());
+                return o;
+            }
         }
     }
 }
@@ -323,7 +334,19 @@ impl<'t> World<'t> {
         if let Some(x) = self.mgrs[mi].sized.get(&key(r)) {
             return x.is_some();
         }
-        let x = sizing_probe(r);
+        let mut x = sizing_probe(r);
+        if x.is_some() {
+            // the scratch copy looked small: confirm on the manager itself
+            let ms = &mut self.mgrs[mi];
+            x = ms.m.with(|m| sizing_probe_in_place(m, r));
+            self.bump("sizing_probes_in_place");
+            if x.is_none() {
+                self.bump("sizing_probe_scratch_copy_was_smaller");
+            }
+        }
+        if std::env::var("SMTSIM_DEBUG_PROBE").is_ok() {
+            eprintln!("probe {} -> {:?}", show(r), x);
+        }
         self.mgrs[mi].sized.insert(key(r), x);
         self.bump("sizing_probes");
         x.is_some()
@@ -1065,6 +1088,13 @@ impl<'t> World<'t> {
             }
             StrDeriv => {
                 call.s = st.s.iter().map(|&c| self.alpha.point(c % BAD_BASE)).collect();
+                if call.s.len() > crate::queries::LONG_STRING
+                    && !(einfo.cost <= COST_CAP && !einfo.big && self.searchable(mi, e))
+                {
+                    // see queries::LONG_STRING
+                    call.s.truncate(crate::queries::LONG_STRING);
+                    self.bump("long_strings_truncated_on_heavy_terms");
+                }
                 Expect::StrQuot(call.s.clone())
             }
             ClassDeriv | ClassDerivUnchecked => {
@@ -1390,6 +1420,66 @@ impl<'t> World<'t> {
                             })?;
                         }
                     }
+                }
+                self.push_obs(ci, st.op.name(), Obs::Nothing);
+                Ok(())
+            }
+            OpKind::Ballast => {
+                // history that consists of nothing but many unrelated terms: ids grow, the store
+                // and id tables grow, nothing else changes
+                let base = st.a[1] % 0x20000;
+                let before = self.mgrs[mi].m.stats();
+                // counts >= 60 000 mean "up to just below a power-of-two boundary of the id counter"
+                // (2^16, 2^17 or 2^18), so that the terms created next straddle the boundary and
+                // their ids, reduced modulo it, fall on the oldest terms of the manager
+                let n = if st.a[0] >= 60_000 {
+                    let boundary: usize = match st.a[0] % 16 {
+                        0 => 1 << 20,
+                        1 | 2 => 1 << 18,
+                        3..=6 => 1 << 17,
+                        _ => 1 << 16,
+                    };
+                    let slack = (st.a[1] as usize / 7) % 48;
+                    let target = boundary.saturating_sub(slack);
+                    // every new character takes two ids (the term and its complement)
+                    (target.saturating_sub(before.0) / 2).min(530_000) as u32
+                } else {
+                    st.a[0]
+                };
+                let ms = &mut self.mgrs[mi];
+                let r = guarded(|| {
+                    ms.m.with(|m| {
+                        for i in 0..n {
+                            // distinct characters first, then distinct two-character strings
+                            if i <= MAX_CHAR {
+                                m.char((base + i) % (MAX_CHAR + 1));
+                            } else {
+                                let a = m.char(i % (MAX_CHAR + 1));
+                                let b = m.char((i / 7) % (MAX_CHAR + 1));
+                                m.concat(a, b);
+                            }
+                        }
+                    })
+                });
+                let after = self.mgrs[mi].m.stats();
+                self.add("ballast_terms_created", (after.0 - before.0) as u64);
+                if after.0 + 64 >= 65_536 && before.0 + 64 < 65_536 {
+                    self.bump("probe.ids_brought_to_2_pow_16");
+                }
+                if after.0 + 64 >= (1 << 17) && before.0 + 64 < (1 << 17) {
+                    self.bump("probe.ids_brought_to_2_pow_17");
+                }
+                if after.0 + 64 >= (1 << 18) && before.0 + 64 < (1 << 18) {
+                    self.bump("probe.ids_brought_to_2_pow_18");
+                }
+                if after.0 + 64 >= (1 << 20) && before.0 + 64 < (1 << 20) {
+                    self.bump("probe.ids_brought_to_2_pow_20");
+                }
+                self.log(format!("#{} c{} ballast {} chars from {:x}: terms {} -> {}", self.step_idx, ci, n, base, before.0, after.0));
+                if let Err(msg) = r {
+                    return self.judge(Prop::C01, "c01.valid-call-panicked", false, || {
+                        format!("char() panicked while creating unrelated terms: {msg}")
+                    });
                 }
                 self.push_obs(ci, st.op.name(), Obs::Nothing);
                 Ok(())
